@@ -7,7 +7,6 @@ import (
 	"go/constant"
 	"go/types"
 	"regexp"
-	"sort"
 	"strings"
 	"unicode"
 
@@ -190,7 +189,7 @@ func findVersionParser(p *Prog) (*ssa.Function, map[string]bool, string) {
 }
 
 func checkC03(p *Prog, rp *Report) {
-	rp.Explanation = "C03-ONE: Parse, UnmarshalText and UnmarshalControl all reach one parse function. C03-GUARDS: on that function's SSA every rejection the property names is a branch that returns an error and dominates every success return (trimmed first; empty; embedded white space; epoch located by the FIRST colon and parsed base 10, parse error and negative rejected; upstream non-empty after the revision split at the LAST hyphen; first upstream byte a digit). C03-ALPHA: the two character predicates evaluated abstractly on every byte and on probe runes equal the Policy alphabets. C03-RESET: every success path assigns Epoch, Version and Revision. C03-RENDER: decision table of String/StringWithoutEpoch (epoch iff >0 or ':' in upstream; '-' revision iff non-empty or '-' in upstream). C03-CODEC: Marshal* return String() through conversions only; Unmarshal* hand their argument to the parse function through conversions only. C03-EPOCHWIDTH: the integer parse cannot exceed the Epoch field on a 32 bit platform (GOARCH=386 load). Together (DESIGN §3 C03) ALPHA+GUARDS+RENDER imply render->parse is the identity on accepted values: the revision alphabet excludes ':' and '-', so the first colon / last hyphen of a rendering are the ones the renderer wrote."
+	rp.Explanation = "(C03-TABLE, C03-ALPHA, C03-RESET, C03-CODEC and C03-ROUNDTRIP are decided by abstract interpretation of Parse / UnmarshalControl / UnmarshalText / String / Marshal* on a generated family of strings against a Policy 5.6.12 reference; the descriptions below name the clauses they cover.) C03-ONE: Parse, UnmarshalText and UnmarshalControl all reach one parse function. C03-GUARDS: on that function's SSA every rejection the property names is a branch that returns an error and dominates every success return (trimmed first; empty; embedded white space; epoch located by the FIRST colon and parsed base 10, parse error and negative rejected; upstream non-empty after the revision split at the LAST hyphen; first upstream byte a digit). C03-ALPHA: the two character predicates evaluated abstractly on every byte and on probe runes equal the Policy alphabets. C03-RESET: every success path assigns Epoch, Version and Revision. C03-RENDER: decision table of String/StringWithoutEpoch (epoch iff >0 or ':' in upstream; '-' revision iff non-empty or '-' in upstream). C03-CODEC: Marshal* return String() through conversions only; Unmarshal* hand their argument to the parse function through conversions only. C03-EPOCHWIDTH: the integer parse cannot exceed the Epoch field on a 32 bit platform (GOARCH=386 load). Together (DESIGN §3 C03) ALPHA+GUARDS+RENDER imply render->parse is the identity on accepted values: the revision alphabet excludes ':' and '-', so the first colon / last hyphen of a rendering are the ones the renderer wrote."
 	rp.NotDecided = "that the library calls used (strings.Index, LastIndex, IndexFunc, TrimSpace, strconv.ParseInt, fmt.Sprintf) behave as documented; acceptance of every string of the Policy grammar is implied by the guard table only under those contracts."
 	rp.Trusted = []string{"go/types, go/ssa", "contracts of strings.*, strconv.ParseInt, unicode.IsSpace/IsDigit, fmt.Sprintf(%d:%s)", "Policy §5.6.12 alphabets as written in c03.go"}
 
@@ -203,318 +202,8 @@ func checkC03(p *Prog, rp *Report) {
 	for _, e := range []string{"Parse", "UnmarshalControl", "UnmarshalText"} {
 		one.check(who[e], "version."+e, p.Pos(parser.Pos()), "reaches "+fname(parser), "does not reach the parse function "+fname(parser)+": this entry point parses differently")
 	}
-	pos := p.Pos(parser.Pos())
-	gs := guardsOf(parser)
-	tm := newTermer()
-	T := ""
-	// the trimmed input: the only use of the input parameter must be TrimSpace
-	g := rp.Rule("C03-GUARDS", "rejections named by the property are error-returning branches that dominate every success return", 9)
-	{
-		in := parser.Params[1]
-		ok := true
-		var trimmed ssa.Value
-		for _, ref := range *in.Referrers() {
-			c, isCall := ref.(*ssa.Call)
-			if isCall && calleeName(c.Common()) == "strings.TrimSpace" {
-				trimmed = c
-				continue
-			}
-			if _, dbg := ref.(*ssa.DebugRef); dbg {
-				continue
-			}
-			ok = false
-		}
-		if trimmed != nil {
-			T = tm.term(trimmed)
-		}
-		g.check(ok && trimmed != nil, "trim-first", pos, "the input is only used through strings.TrimSpace", "the raw input is used other than through strings.TrimSpace: surrounding white space is not ignored uniformly")
-	}
-	find := func(match func(gd guard) (badSide int, ok bool), mustDominate bool) (guard, bool, string) {
-		var why string
-		for _, gd := range gs {
-			side, ok := match(gd)
-			if !ok {
-				continue
-			}
-			if !rejectsOn(parser, gd, side) {
-				why = "the test exists (" + gd.Term + ") but its failing side does not always return an error"
-				continue
-			}
-			if mustDominate && !dominatesAllSuccess(parser, gd) {
-				why = "the test exists (" + gd.Term + ") but a success return is reachable without passing it"
-				continue
-			}
-			return gd, true, ""
-		}
-		if why == "" {
-			why = "no such test in " + fname(parser)
-		}
-		return guard{}, false, why
-	}
-	// empty after trim
-	{
-		_, ok, why := find(func(gd guard) (int, bool) {
-			x, side, ok := emptyTest(gd.Term)
-			return side, ok && x == T
-		}, true)
-		g.check(ok, "empty", pos, "empty input rejected", "empty (or all-blank) input is not rejected: "+why)
-	}
-	// embedded white space
-	{
-		_, ok, why := find(func(gd guard) (int, bool) {
-			x, side, ok := idxTest(gd.Term)
-			if !ok {
-				return 0, false
-			}
-			if x == "strings.IndexFunc("+T+",unicode.IsSpace)" || x == "strings.ContainsFunc("+T+",unicode.IsSpace)" || x == "strings.IndexAny("+T+",\" \\t\\n\\v\\f\\r\")" {
-				return side, true
-			}
-			return 0, false
-		}, true)
-		g.check(ok, "embedded-space", pos, "embedded white space rejected", "embedded white space is not rejected: "+why)
-	}
-	// epoch: located by the first colon, parsed base 10, error and negative rejected
-	epochStore := (*ssa.Store)(nil)
-	var versionStores, revisionStores []*ssa.Store
-	for _, b := range parser.Blocks {
-		for _, ins := range b.Instrs {
-			s, ok := ins.(*ssa.Store)
-			if !ok {
-				continue
-			}
-			switch tm.term(s.Addr) {
-			case "&p0.Epoch":
-				if _, isConst := s.Val.(*ssa.Const); !isConst {
-					epochStore = s
-				}
-			case "&p0.Version":
-				versionStores = append(versionStores, s)
-			case "&p0.Revision":
-				revisionStores = append(revisionStores, s)
-			}
-		}
-	}
-	colonIdx := regexp.QuoteMeta(T)
-	firstColon := `(strings\.Index\(` + colonIdx + `,":"\)|strings\.IndexByte\(` + colonIdx + `,58\)|strings\.IndexRune\(` + colonIdx + `,58\))`
-	parseRe := regexp.MustCompile(`^strconv\.(ParseInt|ParseUint)\(` + colonIdx + `\[:` + firstColon + `\],10,(\d+)\)#0$`)
-	unsigned := false
-	if epochStore == nil {
-		g.bad("epoch-parse", pos, "no assignment of a parsed value to Epoch found", nil)
-	} else {
-		et := tm.term(epochStore.Val)
-		mm := parseRe.FindStringSubmatch(et)
-		if mm == nil {
-			if strings.Contains(et, "LastIndex") {
-				g.bad("epoch-parse", p.Pos(epochStore.Pos()), "the epoch is split off at the LAST colon: "+et, nil)
-			} else {
-				g.undecided("epoch-parse", p.Pos(epochStore.Pos()), "epoch value has an unrecognised shape: "+et)
-			}
-		} else {
-			unsigned = mm[1] == "ParseUint"
-			g.ok("epoch-parse", p.Pos(epochStore.Pos()), "epoch = base-10 integer parse of the text before the first colon")
-			call := strings.TrimSuffix(et, "#0")
-			_, ok, why := find(func(gd guard) (int, bool) {
-				if gd.Term == "(nil != "+call+"#1)" {
-					return 0, true
-				}
-				if gd.Term == "(nil == "+call+"#1)" {
-					return 1, true
-				}
-				return 0, false
-			}, false)
-			dom := false
-			for _, gd := range gs {
-				if strings.Contains(gd.Term, call+"#1") && gd.If.Block().Dominates(epochStore.Block()) {
-					dom = true
-				}
-			}
-			g.check(ok && dom, "epoch-error", pos, "a non-numeric or oversized epoch is rejected before Epoch is assigned", "the integer parser's error is not checked before the epoch is stored: "+why)
-			if unsigned {
-				g.ok("epoch-negative", pos, "unsigned parse: a sign is a syntax error")
-			} else {
-				_, ok, why := find(func(gd guard) (int, bool) {
-					if gd.Term == "("+call+"#0 < 0)" {
-						return 0, true
-					}
-					if gd.Term == "(0 <= "+call+"#0)" {
-						return 1, true
-					}
-					return 0, false
-				}, false)
-				dom := false
-				for _, gd := range gs {
-					if strings.Contains(gd.Term, call+"#0") && gd.If.Block().Dominates(epochStore.Block()) {
-						dom = true
-					}
-				}
-				g.check(ok && dom, "epoch-negative", pos, "a negative epoch is rejected before Epoch is assigned", "a negative epoch is not rejected: "+why)
-			}
-		}
-	}
-	// splits
-	{
-		okV, okR, okU := false, false, false
-		wantV := regexp.MustCompile(`^` + colonIdx + `\[\(1 \+ ` + firstColon + `\):\]$`)
-		for _, s := range versionStores {
-			t := tm.term(s.Val)
-			if wantV.MatchString(t) {
-				okV = true
-			}
-			if t == `p0.Version[:strings.LastIndex(p0.Version,"-")]` || t == `p0.Version[:strings.LastIndexByte(p0.Version,45)]` {
-				okU = true
-			}
-		}
-		for _, s := range revisionStores {
-			t := tm.term(s.Val)
-			if t == `p0.Version[(1 + strings.LastIndex(p0.Version,"-")):]` || t == `p0.Version[(1 + strings.LastIndexByte(p0.Version,45)):]` {
-				okR = true
-			}
-		}
-		g.check(okV, "upstream-after-first-colon", pos, "upstream+revision = text after the first colon (the whole text without a colon)", "the text after the FIRST colon is not what is stored as upstream version")
-		g.check(okR && okU, "revision-after-last-hyphen", pos, "revision = text after the LAST hyphen, upstream = text before it", "the revision is not split off at the LAST hyphen")
-	}
-	// upstream non-empty, checked after the revision split
-	{
-		var trunc *ssa.Store
-		for _, s := range versionStores {
-			if strings.Contains(tm.term(s.Val), "LastIndex") {
-				trunc = s
-			}
-		}
-		_, ok, why := find(func(gd guard) (int, bool) {
-			x, side, ok := emptyTest(gd.Term)
-			if !ok || x != "p0.Version" {
-				return 0, false
-			}
-			if trunc != nil && !reachableFrom(trunc.Block())[gd.If.Block()] {
-				return 0, false
-			}
-			return side, true
-		}, true)
-		g.check(ok, "upstream-non-empty", pos, "an empty upstream part (nothing after the colon, or nothing before the last hyphen) is rejected", "an empty upstream part is accepted (e.g. \"-1\" or \"1:\"): "+why)
-	}
-	// first character a digit
-	{
-		_, ok, why := find(func(gd guard) (int, bool) {
-			t := gd.Term
-			side := 1
-			if strings.HasPrefix(t, "!") {
-				t, side = t[1:], 0
-			}
-			if t == "unicode.IsDigit(p0.Version[0])" {
-				return side, true
-			}
-			if mm := regexp.MustCompile(`^(version\.\w+)\(p0\.Version\[0\]\)$`).FindStringSubmatch(t); mm != nil {
-				if f := p.Func("version", strings.TrimPrefix(mm[1], "version.")); f != nil {
-					if tab, why := predicateTable(p, f, nil); why == "" {
-						for c, v := range tab {
-							if v != (c >= '0' && c <= '9') {
-								return 0, false
-							}
-						}
-						return side, true
-					}
-				}
-			}
-			return 0, false
-		}, true)
-		g.check(ok, "first-digit", pos, "an upstream part not starting with a digit is rejected", "an upstream part that does not start with a digit is accepted: "+why)
-	}
-
-	// C03-ALPHA
-	al := rp.Rule("C03-ALPHA", "character predicates equal the Policy alphabets", 2)
-	for _, part := range []struct {
-		field string
-		in    func(rune) bool
-		name  string
-	}{{"Version", inUpstreamAlphabet, "[A-Za-z0-9.+~:-]"}, {"Revision", inRevisionAlphabet, "[A-Za-z0-9.+~]"}} {
-		found := false
-		for _, gd := range gs {
-			x, side, ok := idxTest(gd.Term)
-			if !ok {
-				continue
-			}
-			mm := regexp.MustCompile(`^strings\.(IndexFunc|ContainsFunc)\(p0\.` + part.field + `,(?:closure:)?(version\.[\w$]+)\)$`).FindStringSubmatch(x)
-			if mm == nil {
-				continue
-			}
-			found = true
-			var pf *ssa.Function
-			for _, f := range reachableRepoFuncs(parser) {
-				if shortFn(f.String()) == mm[2] {
-					pf = f
-				}
-			}
-			key := "alphabet-" + strings.ToLower(part.field)
-			if pf == nil {
-				al.undecided(key, pos, "predicate "+mm[2]+" not found")
-				continue
-			}
-			if len(pf.FreeVars) > 0 {
-				al.undecided(key, p.Pos(pf.Pos()), "predicate captures variables")
-				continue
-			}
-			tab, why := predicateTable(p, pf, nil)
-			if why != "" {
-				al.undecided(key, p.Pos(pf.Pos()), why)
-				continue
-			}
-			var wrong []string
-			var cs []rune
-			for c := range tab {
-				cs = append(cs, c)
-			}
-			sort.Slice(cs, func(i, j int) bool { return cs[i] < cs[j] })
-			for _, c := range cs {
-				if tab[c] == part.in(c) { // predicate true means "invalid"
-					if tab[c] {
-						wrong = append(wrong, fmt.Sprintf("%q rejected", c))
-					} else {
-						wrong = append(wrong, fmt.Sprintf("%q (%U) admitted", c, c))
-					}
-				}
-			}
-			ok2 := rejectsOn(parser, gd, side) && dominatesAllSuccess(parser, gd)
-			if len(wrong) > 0 {
-				if len(wrong) > 6 {
-					wrong = append(wrong[:6], fmt.Sprintf("... %d in all", len(wrong)))
-				}
-				al.bad(key, p.Pos(pf.Pos()), fmt.Sprintf("the %s predicate differs from %s: %s", part.field, part.name, strings.Join(wrong, ", ")), nil)
-			} else if !ok2 {
-				al.bad(key, p.Pos(pf.Pos()), "the alphabet test does not reject on every path", nil)
-			} else {
-				al.ok(key, p.Pos(pf.Pos()), fmt.Sprintf("%d runes probed (all bytes, neighbours of every constant, Unicode probes): admits exactly %s", len(tab), part.name))
-			}
-		}
-		if !found {
-			al.bad("alphabet-"+strings.ToLower(part.field), pos, "no character test on "+part.field+" found", nil)
-		}
-	}
-
-	// C03-RESET
-	rs := rp.Rule("C03-RESET", "every success path assigns Epoch, Version and Revision", 3)
-	for _, f := range []string{"Epoch", "Version", "Revision"} {
-		through := map[*ssa.BasicBlock]bool{}
-		for _, b := range parser.Blocks {
-			for _, ins := range b.Instrs {
-				if s, isS := ins.(*ssa.Store); isS {
-					if t := tm.term(s.Addr); t == "&p0."+f || t == "p0" { // field store or whole-struct reset
-						through[b] = true
-					}
-				}
-			}
-		}
-		ok := len(through) > 0
-		for _, r := range successReturns(parser) {
-			if !everyPathPasses(parser, through, r.Block()) {
-				ok = false
-			}
-		}
-		rs.check(ok, "version.Version."+f, pos, "assigned on every success path", "not assigned on every success path: parsing into a used Version keeps the old "+f)
-	}
-
+	c03Table(p, rp, parser)
 	c03Render(p, rp)
-	c03Codec(p, rp, parser)
 	c03Width(p, rp)
 }
 
@@ -736,5 +425,332 @@ func c03Width(p *Prog, rp *Report) {
 	}
 	if !found {
 		r.undecided("version.epoch-parse(386)", p386.Pos(parser.Pos()), "no integer parse found")
+	}
+}
+
+
+// versionFamily: strings built from every combination of epoch part, upstream
+// part and revision part shapes, with and without surrounding white space.
+func versionFamily() []string {
+	epochs := []string{"", "0:", "1:", "12:", "01:", "010:", "08:", "0x10:", "0b1:", "1_0:", "-1:", "a:", "1a:", ":", "99999999999999999999:", "1 :"}
+	ups := []string{"1.0", "1", "0", "a1", "", ".1", "1:2", "1-2", "1-2-3", "1.0~rc1+b2", "1 0", "1_0", "1.0:", "1.A-z"}
+	revs := []string{"", "-1", "-", "-1.2~a+b", "-1:2", "-1_", "-0", "-1 "}
+	var out []string
+	for _, e := range epochs {
+		for _, u := range ups {
+			for _, r := range revs {
+				v := e + u + r
+				out = append(out, v)
+			}
+		}
+	}
+	for _, v := range []string{"1.0-1", "2:3.4-5", "0:1:2", "1-2-"} {
+		out = append(out, " "+v, v+"\n", "\t "+v+" \r\n")
+	}
+	out = append(out, "", " ", "\t\n")
+	return out
+}
+
+type verResult struct {
+	ok                 bool
+	epoch              int64
+	upstream, revision string
+}
+
+func (v verResult) String() string {
+	if !v.ok {
+		return "rejected"
+	}
+	return fmt.Sprintf("{epoch %d, upstream %q, revision %q}", v.epoch, v.upstream, v.revision)
+}
+
+func refVersionStrict(s string) verResult {
+	// refVersion plus the epoch range (an epoch must fit an int)
+	t := strings.TrimSpace(s)
+	if i := strings.Index(t, ":"); i > 18 {
+		return verResult{}
+	}
+	e, u, r, ok := refVersion(s)
+	return verResult{ok, e, u, r}
+}
+
+func c03Table(p *Prog, rp *Report, parser *ssa.Function) {
+	tbl := rp.Rule("C03-TABLE", "Parse accepts exactly the Policy grammar and splits epoch (first colon), upstream, revision (last hyphen)", 1)
+	alpha := rp.Rule("C03-ALPHA", "characters outside [A-Za-z0-9.+~:-] (upstream) / [A-Za-z0-9.+~] (revision) are rejected, all others accepted", 2)
+	reset := rp.Rule("C03-RESET", "parsing into a used Version gives the same value as parsing into a fresh one", 1)
+	codec := rp.Rule("C03-CODEC", "MarshalText / MarshalControl render String(); UnmarshalText / UnmarshalControl parse like Parse", 4)
+	round := rp.Rule("C03-ROUNDTRIP", "for every accepted string: parse, render, parse gives the same value", 1)
+	parse := p.Func("version", "Parse")
+	verT := p.Named("version", "Version")
+	strFn := p.Method("version", "Version", "String")
+	pos := p.Pos(parser.Pos())
+	if parse == nil || verT == nil || strFn == nil {
+		tbl.bad("version.Parse", "", "anchor not found", nil)
+		return
+	}
+	vs := structOf(verT)
+	fromStruct := func(sv *StructV) verResult {
+		e, _ := sv.F[fieldIndex(vs, "Epoch")].(int64)
+		u, _ := sv.F[fieldIndex(vs, "Version")].(string)
+		r, _ := sv.F[fieldIndex(vs, "Revision")].(string)
+		return verResult{true, e, u, r}
+	}
+	newM := func() *Machine {
+		m := NewMachine(p, nil)
+		installStringModels(m)
+		installFuncModels(m)
+		installUnicodeModels(m)
+		m.Hooks["fmt.Sprintf"] = sprintfModel
+		return m
+	}
+	m := newM()
+	run := func(fn *ssa.Function, args ...Val) (*State, string) {
+		st := initState(m, "version")
+		st.push(fn, args, nil)
+		out := m.Run(st)
+		if len(out) == 1 && out[0].Status == stPanic {
+			return nil, "PANIC: " + out[0].Msg
+		}
+		if len(out) != 1 || out[0].Status != stRet {
+			return nil, "undecided: " + retDesc(out)
+		}
+		return st, ""
+	}
+	doParse := func(s string) (verResult, string) {
+		st, why := run(parse, s)
+		if why != "" {
+			return verResult{}, why
+		}
+		tv := st.Ret.(*TupleV)
+		if _, ok := tv.E[1].(nilV); !ok {
+			return verResult{}, ""
+		}
+		sv, ok := tv.E[0].(*StructV)
+		if !ok {
+			return verResult{}, "undecided: Parse does not return a Version"
+		}
+		return fromStruct(sv), ""
+	}
+	mkVer := func(v verResult) *StructV {
+		return mkStruct(verT, map[string]Val{"Epoch": v.epoch, "Version": v.upstream, "Revision": v.revision})
+	}
+	render := func(v verResult) (string, string) {
+		st, why := run(strFn, mkVer(v))
+		if why != "" {
+			return "", why
+		}
+		s, ok := st.Ret.(string)
+		if !ok {
+			return "", "undecided: String does not return a string"
+		}
+		return s, ""
+	}
+	// ---- TABLE + ROUNDTRIP
+	fam := versionFamily()
+	var tp, rtp []string
+	accepted := 0
+	var acceptedVals []verResult
+	for _, s := range fam {
+		got, why := doParse(s)
+		if strings.HasPrefix(why, "PANIC") {
+			tp = append(tp, fmt.Sprintf("Parse(%q) panics: %s", s, why))
+			continue
+		}
+		if why != "" {
+			tp = append(tp, why)
+			break
+		}
+		want := refVersionStrict(s)
+		if got.String() != want.String() {
+			tp = append(tp, fmt.Sprintf("Parse(%q) = %s, Policy 5.6.12 says %s", s, got, want))
+			continue
+		}
+		if !got.ok {
+			continue
+		}
+		accepted++
+		acceptedVals = append(acceptedVals, got)
+		r, why := render(got)
+		if why != "" {
+			rtp = append(rtp, why)
+			break
+		}
+		back, why := doParse(r)
+		if why != "" {
+			rtp = append(rtp, why)
+			break
+		}
+		if back.String() != got.String() {
+			rtp = append(rtp, fmt.Sprintf("%q parses to %s, renders as %q, which parses to %s", s, got, r, back))
+		}
+	}
+	fillProblems(tbl, "version.Parse", pos, tp, fmt.Sprintf("%d strings (every combination of 16 epoch shapes x 14 upstream shapes x 8 revision shapes, plus surrounding white space): %d accepted, verdict and parts equal the reference", len(fam), accepted))
+	fillProblems(round, "version.Version.String", p.Pos(strFn.Pos()), rtp, fmt.Sprintf("%d accepted strings: Parse(String(Parse(s))) = Parse(s)", accepted))
+	// ---- ALPHA: one probe per byte value and a few multi-byte runes, in the upstream and in the revision
+	var probes []string
+	for c := 0; c < 256; c++ {
+		probes = append(probes, string([]byte{byte(c)}))
+	}
+	probes = append(probes, "é", "٣", "１", "ü", "\u00a0", "\u2028")
+	for _, part := range []struct {
+		name   string
+		mk     func(c string) string
+		in     func(rune) bool
+	}{
+		{"upstream", func(c string) string { return "1" + c + "2" }, inUpstreamAlphabet},
+		{"revision", func(c string) string { return "1-3" + c + "4" }, inRevisionAlphabet},
+	} {
+		var ap []string
+		for _, c := range probes {
+			s := part.mk(c)
+			got, why := doParse(s)
+			if why != "" {
+				ap = append(ap, why)
+				break
+			}
+			want := refVersionStrict(s)
+			if got.ok != want.ok {
+				verb := "accepted"
+				if !got.ok {
+					verb = "rejected"
+				}
+				ap = append(ap, fmt.Sprintf("%q (the character %q in the %s part) is %s", s, c, part.name, verb))
+			}
+		}
+		fillProblems(alpha, "alphabet-"+part.name, pos, ap, fmt.Sprintf("%d characters probed inside the %s part: accepted iff in the Policy alphabet", len(probes), part.name))
+	}
+	// ---- RESET and CODEC
+	uc := p.Method("version", "Version", "UnmarshalControl")
+	ut := p.Method("version", "Version", "UnmarshalText")
+	mt := p.Method("version", "Version", "MarshalText")
+	mc := p.Method("version", "Version", "MarshalControl")
+	samples := []string{"1.0", "2:3.4-5", "0:1:2", "1-2-", "7-1", "3:1", "1.0~rc1+b2-0ubuntu1"}
+	var rsp []string
+	unmarshalInto := func(fn *ssa.Function, dirty verResult, arg Val) (verResult, string) {
+		st := initState(m, "version")
+		id := st.alloc(verT, mkVer(dirty))
+		st.push(fn, []Val{Ptr{Obj: id}, arg}, nil)
+		out := m.Run(st)
+		if len(out) != 1 || out[0].Status != stRet {
+			return verResult{}, "undecided: " + retDesc(out)
+		}
+		if _, ok := st.Ret.(nilV); !ok {
+			return verResult{}, ""
+		}
+		return fromStruct(st.Heap[id].V.(*StructV)), ""
+	}
+	if uc != nil {
+		for _, s := range samples {
+			want, _ := doParse(s)
+			got, why := unmarshalInto(uc, verResult{true, 9, "8.old", "7old"}, s)
+			if why != "" {
+				rsp = append(rsp, why)
+				break
+			}
+			if got.String() != want.String() {
+				rsp = append(rsp, fmt.Sprintf("UnmarshalControl(%q) into the used value 9:8.old-7old gives %s, a fresh parse gives %s", s, got, want))
+			}
+		}
+		fillProblems(reset, "version.Version.UnmarshalControl", p.Pos(uc.Pos()), rsp, "7 strings parsed into a used Version equal the fresh parse")
+	} else {
+		reset.bad("version.Version.UnmarshalControl", "", "method not found", nil)
+	}
+	for _, e := range []struct {
+		name string
+		fn   *ssa.Function
+	}{{"MarshalText", mt}, {"MarshalControl", mc}} {
+		key := "version.Version." + e.name
+		if e.fn == nil {
+			codec.bad(key, "", "method not found", nil)
+			continue
+		}
+		var cp []string
+		for _, v := range acceptedVals {
+			want, why := render(v)
+			if why != "" {
+				cp = append(cp, why)
+				break
+			}
+			st := initState(m, "version")
+			var recv Val = mkVer(v)
+			if _, isPtr := e.fn.Signature.Recv().Type().(*types.Pointer); isPtr {
+				recv = Ptr{Obj: st.alloc(verT, mkVer(v))}
+			}
+			st.push(e.fn, []Val{recv}, nil)
+			out := m.Run(st)
+			if len(out) != 1 || out[0].Status != stRet {
+				cp = append(cp, "undecided: "+retDesc(out))
+				break
+			}
+			tv := st.Ret.(*TupleV)
+			got := ""
+			switch x := tv.E[0].(type) {
+			case string:
+				got = x
+			default:
+				elems, _, ok := m.sliceElems(st, x)
+				if !ok {
+					cp = append(cp, "undecided: result is neither a string nor a byte slice")
+					continue
+				}
+				var b strings.Builder
+				for _, el := range elems {
+					n, _ := el.(int64)
+					b.WriteByte(byte(n))
+				}
+				got = b.String()
+			}
+			if _, errNil := tv.E[1].(nilV); !errNil || got != want {
+				cp = append(cp, fmt.Sprintf("%s of %s gives %q, String() gives %q", e.name, v, got, want))
+			}
+		}
+		fillProblems(codec, key, p.Pos(e.fn.Pos()), cp, fmt.Sprintf("%d values: the marshalled text is exactly String()", len(acceptedVals)))
+	}
+	for _, e := range []struct {
+		name string
+		fn   *ssa.Function
+		text bool
+	}{{"UnmarshalText", ut, true}, {"UnmarshalControl", uc, false}} {
+		key := "version.Version." + e.name
+		if e.fn == nil {
+			codec.bad(key, "", "method not found", nil)
+			continue
+		}
+		var cp []string
+		for _, s := range append(append([]string{}, samples...), "a1", "1 0", "-1", "1:", "") {
+			want, _ := doParse(s)
+			var arg Val = s
+			st0 := initState(m, "version")
+			_ = st0
+			var got verResult
+			var why string
+			if e.text {
+				// []byte argument
+				st := initState(m, "version")
+				arr := &ArrayV{}
+				for i := 0; i < len(s); i++ {
+					arr.E = append(arr.E, int64(s[i]))
+				}
+				aid := st.alloc(types.NewArray(types.Typ[types.Uint8], int64(len(s))), arr)
+				id := st.alloc(verT, mkVer(verResult{}))
+				st.push(e.fn, []Val{Ptr{Obj: id}, SliceV{Obj: aid, Len_: len(s), Cap: len(s)}}, nil)
+				out := m.Run(st)
+				if len(out) != 1 || out[0].Status != stRet {
+					why = "undecided: " + retDesc(out)
+				} else if _, ok := st.Ret.(nilV); ok {
+					got = fromStruct(st.Heap[id].V.(*StructV))
+				}
+			} else {
+				got, why = unmarshalInto(e.fn, verResult{}, arg)
+			}
+			if why != "" {
+				cp = append(cp, why)
+				break
+			}
+			if got.String() != want.String() {
+				cp = append(cp, fmt.Sprintf("%s(%q) gives %s, Parse gives %s", e.name, s, got, want))
+			}
+		}
+		fillProblems(codec, key, p.Pos(e.fn.Pos()), cp, "12 strings: same verdict and value as Parse")
 	}
 }
